@@ -186,6 +186,8 @@ theorem take_of_ascii_rune {s : Bytes} (hs : s ≠ []) (hr : (Utf8.decodeRune s)
   rw [hw, ← hb]
   simp
 
+example : ([97] : Bytes) ≠ [] ∧ (Utf8.decodeRune [97]).1 < 0x80 := by decide
+
 theorem unquoteChar_nonascii (c : UInt8) (x : Bytes) (hc : 128 ≤ c.toNat) :
     Quote.unquoteChar (c :: x) = some ((Utf8.decodeRune (c :: x)).1, true, (c :: x).drop (Utf8.decodeRune (c :: x)).2) := by
   have hc34 : c ≠ 34 := by intro h; subst h; revert hc; decide
